@@ -1626,6 +1626,8 @@ EnsureSizeAux(uint32 size, bool setNumItems, uint32 extraPreallocs, ItemType ** 
 {
    if (retOldArray) *retOldArray = NULL;  // default value, will be set non-NULL iff the old array needs deleting later
 
+   if ((setNumItems == false)&&(size < _itemCount)) size = _itemCount;  // never reallocate to fewer slots than we have items
+
    if ((_queue == NULL)||(allowShrink ? (_queueSize != (size+extraPreallocs)) : (_queueSize < size)))
    {
       const uint32 sqLen = ARRAYITEMS(_smallQueue);
@@ -1640,8 +1642,9 @@ EnsureSizeAux(uint32 size, bool setNumItems, uint32 extraPreallocs, ItemType ** 
 
       if (_queue)  // just to make Coverity happy
       {
-         for (uint32 i=0; i<_itemCount; i++)
-            newQueue[i] = QQ_PlunderItem(GetItemAtUnchecked(i));  // we know that (_itemCount < size)
+         const uint32 numItemsToMove = setNumItems ? muscleMin(_itemCount, size) : _itemCount;  // (size) may be less than (_itemCount) if we are shrinking
+         for (uint32 i=0; i<numItemsToMove; i++)
+            newQueue[i] = QQ_PlunderItem(GetItemAtUnchecked(i));  // we know that (numItemsToMove <= newQLen)
       }
 
       if (setNumItems) _itemCount = size;
